@@ -168,6 +168,11 @@ fn pool(args: &Args) {
     };
     for c in &suite {
         put(&format!("suite:{}", c.id), &c.yaml, &mut w);
+        // the same case with CRLF and with lone-CR line breaks
+        if c.yaml.contains('\n') && !c.yaml.contains('\r') {
+            put(&format!("suite-crlf:{}", c.id), &gen::crlf(&c.yaml), &mut w);
+            put(&format!("suite-cr:{}", c.id), &gen::cr(&c.yaml), &mut w);
+        }
     }
     // documents embedded in the repository's own tests are covered by the suite corpus and the
     // seeds below (kept small and explicit)
